@@ -25,36 +25,29 @@ __CPROVER_ensures(__CPROVER_return_value >= 0 ==> ((int)*type == xv_ctl_get_type
 ;
 
 /* ------------------------------------------------------------------ process_get_attr */
-/* The members of the anonymous union of struct ctl_proto_msg are reached BY ADDRESS: for `msg->get_attr_cfm.attr.value_len` CBMC
- * reads the whole 37 896-byte union and projects, which at a symbolic address (a session of struct ctl) is 37 896 array
- * reads per mention (process_client ran out of memory). */
-#define XV_AT(T, base, off) ((T *)((uint8_t *)(base) + (off)))
-#define PGA_CFM(r) (*XV_AT(struct ctl_proto_attr, (r), offsetof(struct ctl_proto_msg, get_attr_cfm.attr)))
-#define PGA_REJ_ERRNO(r) (*XV_AT(int, (r), offsetof(struct ctl_proto_msg, get_attr_rej.rej_errno)))
 static void process_get_attr(struct xcm_socket *socket, struct ctl_proto_get_attr_req *req, struct ctl_proto_msg *response)
 __CPROVER_requires(XV_CTL_Z_LO)
 __CPROVER_requires(XV_CTL_Z_HI)
 __CPROVER_requires(__CPROVER_is_fresh(socket, sizeof(*socket)) && __CPROVER_is_fresh(req, sizeof(*req)) && __CPROVER_is_fresh(response, XV_CTL_SIZEOF(*response)))
-__CPROVER_requires(XV_CTL_CNT_OK(xv_ctl_get_calls))
 __CPROVER_assigns(xv_errno, xv_ctl_get)
-__CPROVER_assigns(response->type, PGA_REJ_ERRNO(response), PGA_CFM(response).value_type, PGA_CFM(response).value_len, \
-                  __CPROVER_object_upto(&XV_ANYV(PGA_CFM(response), 0), CTL_ATTR_VALUE_MAX + (size_t)xv_ctl_z))
+__CPROVER_assigns(XV_MSG_TYPE(response), XV_MSG_REJ_ERRNO(response), XV_ATTR_TYPE(XV_MSG_ATTRP(response)), XV_ATTR_LEN(XV_MSG_ATTRP(response)), \
+                  __CPROVER_object_upto(&XV_ATTR_VAL(XV_MSG_ATTRP(response), 0), CTL_ATTR_VALUE_MAX + (size_t)xv_ctl_z))
 __CPROVER_ensures(xv_errno == __CPROVER_old(xv_errno))
 __CPROVER_ensures(xv_ctl_get_calls == __CPROVER_old(xv_ctl_get_calls) || xv_ctl_get_calls == __CPROVER_old(xv_ctl_get_calls) + 1)
 /* PO[C14] process_get_attr.reply_type */
-__CPROVER_ensures(response->type == ctl_proto_type_get_attr_cfm || response->type == ctl_proto_type_get_attr_rej)
+__CPROVER_ensures(XV_MSG_TYPE(response) == ctl_proto_type_get_attr_cfm || XV_MSG_TYPE(response) == ctl_proto_type_get_attr_rej)
 /* PO[C14] process_get_attr.reply_equals_in_process */
 __CPROVER_ensures((XV_CSTR64(req->attr_name) && !XV_IS_TLS_KEY(req->attr_name)) ==> (xv_ctl_get_calls == __CPROVER_old(xv_ctl_get_calls) + 1 && (xv_ctl_get_rv >= 0 \
-        ? (response->type == ctl_proto_type_get_attr_cfm && PGA_CFM(response).value_len == (size_t)xv_ctl_get_rv && \
-           (int)PGA_CFM(response).value_type == xv_ctl_get_type && PGA_CFM(response).value_len <= CTL_ATTR_VALUE_MAX && \
-           (xv_ctl_j < (size_t)xv_ctl_get_rv ==> XV_ANYV(PGA_CFM(response), xv_ctl_j) == xv_ctl_get_j)) \
-        : (response->type == ctl_proto_type_get_attr_rej && PGA_REJ_ERRNO(response) == xv_ctl_get_errno && xv_ctl_get_errno > 0))))
+        ? (XV_MSG_TYPE(response) == ctl_proto_type_get_attr_cfm && XV_ATTR_LEN(XV_MSG_ATTRP(response)) == (size_t)xv_ctl_get_rv && \
+           XV_ATTR_TYPE(XV_MSG_ATTRP(response)) == xv_ctl_get_type && XV_ATTR_LEN(XV_MSG_ATTRP(response)) <= CTL_ATTR_VALUE_MAX && \
+           (xv_ctl_j < (size_t)xv_ctl_get_rv ==> XV_ATTR_VAL(XV_MSG_ATTRP(response), xv_ctl_j) == xv_ctl_get_j)) \
+        : (XV_MSG_TYPE(response) == ctl_proto_type_get_attr_rej && XV_MSG_REJ_ERRNO(response) == xv_ctl_get_errno && xv_ctl_get_errno > 0))))
 /* PO[C14] process_get_attr.tls_key_never_disclosed */
-__CPROVER_ensures(XV_IS_TLS_KEY(req->attr_name) ==> (response->type == ctl_proto_type_get_attr_rej && PGA_REJ_ERRNO(response) == EACCES && \
-        (xv_ctl_j < CTL_ATTR_VALUE_MAX ==> XV_ANYV(PGA_CFM(response), xv_ctl_j) == 0)))
+__CPROVER_ensures(XV_IS_TLS_KEY(req->attr_name) ==> (XV_MSG_TYPE(response) == ctl_proto_type_get_attr_rej && XV_MSG_REJ_ERRNO(response) == EACCES && \
+        (xv_ctl_j < CTL_ATTR_VALUE_MAX ==> XV_ATTR_VAL(XV_MSG_ATTRP(response), xv_ctl_j) == 0)))
 /* a name without terminator inside attr_name[64] is never handed to the attribute code: the query is rejected */
 /* PO[C14] process_get_attr.unterminated_name_rejected */
-__CPROVER_ensures(!XV_CSTR64(req->attr_name) ==> (response->type == ctl_proto_type_get_attr_rej && PGA_REJ_ERRNO(response) > 0 && \
+__CPROVER_ensures(!XV_CSTR64(req->attr_name) ==> (XV_MSG_TYPE(response) == ctl_proto_type_get_attr_rej && XV_MSG_REJ_ERRNO(response) > 0 && \
         xv_ctl_get_calls == __CPROVER_old(xv_ctl_get_calls)))
 ;
 
@@ -66,39 +59,37 @@ static void add_attr(const char *attr_name, enum xcm_attr_type type, void *value
 __CPROVER_requires(XV_CTL_Z_LO)
 __CPROVER_requires(XV_CTL_Z_HI)
 __CPROVER_requires(__CPROVER_is_fresh(data, XV_CTL_SIZEOF(struct ctl_proto_get_all_attr_cfm)))
-__CPROVER_requires(AA_CFM(data)->attrs_len <= CTL_PROTO_MAX_ATTRS && AA_CFM(data)->attrs_len == xv_ctl_g_len0)
+__CPROVER_requires(XV_CFM_LEN(data) <= CTL_PROTO_MAX_ATTRS && XV_CFM_LEN(data) == xv_ctl_g_len0)
 __CPROVER_requires(xv_ctl_g_namelen < XV_CTL_NAME_OBJ && __CPROVER_is_fresh(attr_name, xv_ctl_g_namelen + 1))
 __CPROVER_requires(attr_name[xv_ctl_g_namelen] == 0 && XV_NONUL96(attr_name, xv_ctl_g_namelen))
 __CPROVER_requires(len <= XV_CTL_LEN_MAX && len == xv_ctl_g_len && __CPROVER_is_fresh(value, len == 0 ? 1 : len))
-__CPROVER_assigns(AA_ADDS(attr_name, xv_ctl_g_namelen, len): __CPROVER_object_upto(&AA_CFM(data)->attrs_len, XV_CTL_SIZEOF(size_t)), __CPROVER_object_upto(&AA_ENTRY(data), XV_CTL_SIZEOF(AA_ENTRY(data))))
+__CPROVER_assigns(AA_ADDS(attr_name, xv_ctl_g_namelen, len): __CPROVER_object_upto(&XV_CFM_LEN(data), XV_CTL_SIZEOF(size_t)), __CPROVER_object_upto(AA_ENTRYP(data), XV_CTL_SIZEOF(struct ctl_proto_attr)))
 /* PO[C14] add_attr.table_bound */
-__CPROVER_ensures(AA_CFM(data)->attrs_len <= CTL_PROTO_MAX_ATTRS && \
-                  AA_CFM(data)->attrs_len == xv_ctl_g_len0 + (AA_ADDS(attr_name, xv_ctl_g_namelen, len) ? 1 : 0))
+__CPROVER_ensures(XV_CFM_LEN(data) <= CTL_PROTO_MAX_ATTRS && \
+                  XV_CFM_LEN(data) == xv_ctl_g_len0 + (AA_ADDS(attr_name, xv_ctl_g_namelen, len) ? 1 : 0))
 /* PO[C14] add_attr.entry_equals_in_process */
-__CPROVER_ensures(AA_ADDS(attr_name, xv_ctl_g_namelen, len) ==> (AA_ENTRY(data).value_type == type && AA_ENTRY(data).value_len == len && \
-        (xv_mc < len ==> XV_ANYV(AA_ENTRY(data), xv_mc) == ((const uint8_t *)value)[xv_mc]) && \
-        (xv_ctl_j <= xv_ctl_g_namelen ==> AA_ENTRY(data).name[xv_ctl_j] == attr_name[xv_ctl_j]) && AA_ENTRY(data).name[xv_ctl_g_namelen] == 0))
+__CPROVER_ensures(AA_ADDS(attr_name, xv_ctl_g_namelen, len) ==> (XV_ATTR_TYPE(AA_ENTRYP(data)) == (int)type && XV_ATTR_LEN(AA_ENTRYP(data)) == len && \
+        (xv_mc < len ==> XV_ATTR_VAL(AA_ENTRYP(data), xv_mc) == ((const uint8_t *)value)[xv_mc]) && \
+        (xv_ctl_j <= xv_ctl_g_namelen ==> XV_ATTR_NAME(AA_ENTRYP(data), xv_ctl_j) == attr_name[xv_ctl_j]) && XV_ATTR_NAME(AA_ENTRYP(data), xv_ctl_g_namelen) == 0))
 ;
 
 /* ------------------------------------------------------------------ process_get_all_attr
  * xcm_attr_get_all is the stub of env/ctl_env.h: ANY number of callbacks with ANY name/type/value; it counts the reportable
  * ones (xv_ctl_all_n) and records the xv_ctl_i-th of them.  The reply must be typed, list min(n, 64) attributes, and
  * its xv_ctl_i-th entry must be the xv_ctl_i-th reportable attribute -- whatever pending_response held before. */
-#define PGAA_CFM(r) (*XV_AT(struct ctl_proto_get_all_attr_cfm, (r), offsetof(struct ctl_proto_msg, get_all_attr_cfm)))
 static void process_get_all_attr(struct xcm_socket *socket, struct ctl_proto_msg *response)
 __CPROVER_requires(XV_CTL_Z_LO)
 __CPROVER_requires(XV_CTL_Z_HI)
 __CPROVER_requires(__CPROVER_is_fresh(socket, sizeof(*socket)) && __CPROVER_is_fresh(response, XV_CTL_SIZEOF(*response)))
-__CPROVER_requires(XV_CTL_CNT_OK(xv_ctl_all_calls))
-__CPROVER_assigns(XV_CTL_ALL_GHOSTS, response->type, __CPROVER_object_upto(&PGAA_CFM(response), XV_CTL_SIZEOF(PGAA_CFM(response))))
+__CPROVER_assigns(XV_CTL_ALL_GHOSTS, XV_MSG_TYPE(response), __CPROVER_object_upto(XV_MSG_CFMP(response), XV_CTL_SIZEOF(struct ctl_proto_get_all_attr_cfm)))
 __CPROVER_ensures(xv_ctl_all_calls == __CPROVER_old(xv_ctl_all_calls) + 1)
 /* PO[C14] process_get_all_attr.reply_type */
-__CPROVER_ensures(response->type == ctl_proto_type_get_all_attr_cfm)
+__CPROVER_ensures(XV_MSG_TYPE(response) == ctl_proto_type_get_all_attr_cfm)
 /* PO[C14] process_get_all_attr.table_bound */
-__CPROVER_ensures(PGAA_CFM(response).attrs_len <= CTL_PROTO_MAX_ATTRS && \
-                  PGAA_CFM(response).attrs_len == (xv_ctl_all_n < CTL_PROTO_MAX_ATTRS ? xv_ctl_all_n : CTL_PROTO_MAX_ATTRS))
+__CPROVER_ensures(XV_CFM_LEN(XV_MSG_CFMP(response)) <= CTL_PROTO_MAX_ATTRS && \
+                  XV_CFM_LEN(XV_MSG_CFMP(response)) == (xv_ctl_all_n < CTL_PROTO_MAX_ATTRS ? xv_ctl_all_n : CTL_PROTO_MAX_ATTRS))
 /* PO[C14] process_get_all_attr.reply_equals_in_process */
-__CPROVER_ensures(XV_CTL_ALL_ENTRY_I(&PGAA_CFM(response)))
+__CPROVER_ensures(XV_CTL_ALL_ENTRY_I(XV_MSG_CFMP(response)))
 ;
 
 /* ================================================================== the session table: struct ctl and its clients
@@ -116,10 +107,6 @@ __CPROVER_ensures(XV_CTL_ALL_ENTRY_I(&PGAA_CFM(response)))
 /* the header of struct ctl is never written after ctl_create */
 #define CTL_HDR_SAME(ctl) ((ctl)->socket == __CPROVER_old((ctl)->socket) && (ctl)->server_fd == __CPROVER_old((ctl)->server_fd) && \
                            (ctl)->server_fd_reg_id == __CPROVER_old((ctl)->server_fd_reg_id))
-/* ghost counters do not overflow */
-#define CTL_GHOST_RANGE (XV_CTL_CNT_OK(xv_ctl_ep_ops) && XV_CTL_CNT_OK(xv_ctl_close_calls) && XV_CTL_CNT_OK(xv_ctl_fds_made) && XV_CTL_CNT_OK(xv_ctl_recv_calls) && \
-                         XV_CTL_CNT_OK(xv_ctl_send_calls) && XV_CTL_CNT_OK(xv_ctl_get_calls) && XV_CTL_CNT_OK(xv_ctl_all_calls) && XV_CTL_CNT_OK(xv_ctl_unlink_calls) && \
-                         XV_CTL_CNT_OK(xv_ctl_readable_calls))
 /* PASSIVITY towards the data path, at the xpoll.  xv_ctl_reg is an arbitrary registration id; the ghost constant
  * xv_ctl_g_foreign says "it exists, is not one of this ctl's, and has event mask xv_ctl_g_fev".  CTL_FOREIGN is required and
  * ensured by every function: a registration of the data path is never deleted, modified or taken over. */
@@ -130,9 +117,16 @@ _Bool xv_ctl_g_foreign; int xv_ctl_g_fev;
                           xv_ctl_ev[xv_ctl_reg] == xv_ctl_g_fev && !CTL_OWNS(ctl, xv_ctl_reg)))
 /* ghost state every session-level function may write */
 #define CTL_EP_GHOSTS xv_errno, XV_CTL_EP_OBJS, xv_ctl_ep_ops
-/* client points at one of the sessions in use (pointer_in_range gives symex the points-to fact, the equalities the exact slot) */
-#define CTL_SESSION(client, ctl) (__CPROVER_pointer_in_range_dfcc(&CTL_C(ctl, 0), (client), &CTL_C(ctl, 1)) && \
-        (((ctl)->num_clients >= 1 && (client) == &CTL_C(ctl, 0)) || ((ctl)->num_clients >= 2 && (client) == &CTL_C(ctl, 1))))
+/* client points at one of the sessions in use.  pointer_equals ASSIGNS the pointer when the clause is assumed, so symex knows
+ * the exact address.  A job that ENFORCES a per-session contract is run once per slot (-DXV_CTL_SLOT=0|1, a complete case
+ * split of the disjunction below; every offset into the 76 KB struct ctl is then a constant); where the contract is
+ * ASSUMED of a callee (ctl_process -> process_client) the general form is what the call site has to establish. */
+#ifdef XV_CTL_SLOT
+#define CTL_SESSION(client, ctl) ((ctl)->num_clients > XV_CTL_SLOT && __CPROVER_pointer_equals((client), &CTL_C(ctl, XV_CTL_SLOT)))
+#else
+#define CTL_SESSION(client, ctl) (((ctl)->num_clients >= 1 && __CPROVER_pointer_equals((client), &CTL_C(ctl, 0))) || \
+                                  ((ctl)->num_clients >= 2 && __CPROVER_pointer_equals((client), &CTL_C(ctl, 1))))
+#endif
 #define CTL_SAME(x) ((x) == __CPROVER_old(x))
 #define CTL_INC(x) ((x) == __CPROVER_old(x) + 1)
 #define CTL_MSG_SIZE sizeof(struct ctl_proto_msg)
@@ -142,7 +136,7 @@ _Bool xv_ctl_g_foreign; int xv_ctl_g_fev;
 static int client_send(struct client *client, struct ctl *ctl)
 __CPROVER_requires(XV_CTL_Z_LO)
 __CPROVER_requires(XV_CTL_Z_HI)
-__CPROVER_requires(CTL_MEM(ctl) && CTL_INV(ctl) && CTL_SESSION(client, ctl) && CTL_GHOST_RANGE && CTL_FOREIGN(ctl))
+__CPROVER_requires(CTL_MEM(ctl) && CTL_INV(ctl) && CTL_SESSION(client, ctl) && CTL_FOREIGN(ctl))
 __CPROVER_assigns(CTL_EP_GHOSTS, CS_GHOSTS, client->is_response_pending)
 __CPROVER_ensures((__CPROVER_return_value == 0 || __CPROVER_return_value == -1) && CTL_INV(ctl) && CTL_FOREIGN(ctl))
 /* PO[C14] client_send.sends_the_pending_reply */
@@ -165,7 +159,7 @@ __CPROVER_ensures(xv_ctl_send_rc >= 0 \
 static int client_receive(struct client *client, struct ctl *ctl)
 __CPROVER_requires(XV_CTL_Z_LO)
 __CPROVER_requires(XV_CTL_Z_HI)
-__CPROVER_requires(CTL_MEM(ctl) && CTL_INV(ctl) && CTL_SESSION(client, ctl) && CTL_GHOST_RANGE && CTL_FOREIGN(ctl) && !client->is_response_pending)
+__CPROVER_requires(CTL_MEM(ctl) && CTL_INV(ctl) && CTL_SESSION(client, ctl) && CTL_FOREIGN(ctl) && !client->is_response_pending)
 __CPROVER_assigns(CTL_EP_GHOSTS, CR_GHOSTS, client->is_response_pending, __CPROVER_object_upto(&client->pending_response, XV_CTL_SIZEOF(client->pending_response)))
 __CPROVER_ensures((__CPROVER_return_value == 0 || __CPROVER_return_value == -1) && CTL_INV(ctl) && CTL_FOREIGN(ctl))
 __CPROVER_ensures(CTL_INC(xv_ctl_readable_calls) && (xv_ctl_readable ? (CTL_INC(xv_ctl_recv_calls) && xv_ctl_recv_fd == client->fd) : CTL_SAME(xv_ctl_recv_calls)))
@@ -181,30 +175,30 @@ __CPROVER_ensures((CR_FULL && xv_ctl_req_type != ctl_proto_type_get_attr_req && 
 /* PO[C14] client_receive.get_attr_reply */
 __CPROVER_ensures((CR_FULL && xv_ctl_req_type == ctl_proto_type_get_attr_req) ==> (__CPROVER_return_value == 0 && client->is_response_pending && \
         xv_ctl_ev[client->fd_reg_id] == EPOLLOUT && CTL_SAME(xv_ctl_all_calls) && \
-        (client->pending_response.type == ctl_proto_type_get_attr_cfm || client->pending_response.type == ctl_proto_type_get_attr_rej) && \
+        (XV_MSG_TYPE(&client->pending_response) == ctl_proto_type_get_attr_cfm || XV_MSG_TYPE(&client->pending_response) == ctl_proto_type_get_attr_rej) && \
         ((xv_ctl_req_cstr && !xv_ctl_req_key) ==> (CTL_INC(xv_ctl_get_calls) && (xv_ctl_get_rv >= 0 \
-            ? (client->pending_response.type == ctl_proto_type_get_attr_cfm && PGA_CFM(&client->pending_response).value_len == (size_t)xv_ctl_get_rv && \
-               (int)PGA_CFM(&client->pending_response).value_type == xv_ctl_get_type && \
-               (xv_ctl_j < (size_t)xv_ctl_get_rv ==> XV_ANYV(PGA_CFM(&client->pending_response), xv_ctl_j) == xv_ctl_get_j)) \
-            : (client->pending_response.type == ctl_proto_type_get_attr_rej && PGA_REJ_ERRNO(&client->pending_response) == xv_ctl_get_errno)))) && \
-        (!xv_ctl_req_cstr ==> (client->pending_response.type == ctl_proto_type_get_attr_rej && CTL_SAME(xv_ctl_get_calls)))))
+            ? (XV_MSG_TYPE(&client->pending_response) == ctl_proto_type_get_attr_cfm && XV_ATTR_LEN(XV_MSG_ATTRP(&client->pending_response)) == (size_t)xv_ctl_get_rv && \
+               XV_ATTR_TYPE(XV_MSG_ATTRP(&client->pending_response)) == xv_ctl_get_type && \
+               (xv_ctl_j < (size_t)xv_ctl_get_rv ==> XV_ATTR_VAL(XV_MSG_ATTRP(&client->pending_response), xv_ctl_j) == xv_ctl_get_j)) \
+            : (XV_MSG_TYPE(&client->pending_response) == ctl_proto_type_get_attr_rej && XV_MSG_REJ_ERRNO(&client->pending_response) == xv_ctl_get_errno)))) && \
+        (!xv_ctl_req_cstr ==> (XV_MSG_TYPE(&client->pending_response) == ctl_proto_type_get_attr_rej && CTL_SAME(xv_ctl_get_calls)))))
 /* PO[C14] client_receive.tls_key_never_disclosed */
 __CPROVER_ensures((CR_FULL && xv_ctl_req_type == ctl_proto_type_get_attr_req && xv_ctl_req_key) ==> \
-        (client->pending_response.type == ctl_proto_type_get_attr_rej && PGA_REJ_ERRNO(&client->pending_response) == EACCES && \
-         (xv_ctl_j < CTL_ATTR_VALUE_MAX ==> XV_ANYV(PGA_CFM(&client->pending_response), xv_ctl_j) == 0)))
+        (XV_MSG_TYPE(&client->pending_response) == ctl_proto_type_get_attr_rej && XV_MSG_REJ_ERRNO(&client->pending_response) == EACCES && \
+         (xv_ctl_j < CTL_ATTR_VALUE_MAX ==> XV_ATTR_VAL(XV_MSG_ATTRP(&client->pending_response), xv_ctl_j) == 0)))
 /* PO[C14] client_receive.get_all_reply */
 __CPROVER_ensures((CR_FULL && xv_ctl_req_type == ctl_proto_type_get_all_attr_req) ==> (__CPROVER_return_value == 0 && client->is_response_pending && \
         xv_ctl_ev[client->fd_reg_id] == EPOLLOUT && CTL_SAME(xv_ctl_get_calls) && CTL_INC(xv_ctl_all_calls) && \
-        client->pending_response.type == ctl_proto_type_get_all_attr_cfm && \
-        PGAA_CFM(&client->pending_response).attrs_len == (xv_ctl_all_n < CTL_PROTO_MAX_ATTRS ? xv_ctl_all_n : CTL_PROTO_MAX_ATTRS) && \
-        XV_CTL_ALL_ENTRY_I(&PGAA_CFM(&client->pending_response))))
+        XV_MSG_TYPE(&client->pending_response) == ctl_proto_type_get_all_attr_cfm && \
+        XV_CFM_LEN(XV_MSG_CFMP(&client->pending_response)) == (xv_ctl_all_n < CTL_PROTO_MAX_ATTRS ? xv_ctl_all_n : CTL_PROTO_MAX_ATTRS) && \
+        XV_CTL_ALL_ENTRY_I(XV_MSG_CFMP(&client->pending_response))))
 ;
 
 /* ------------------------------------------------------------------ process_client: send if a reply is pending, else receive */
 static int process_client(struct client *client, struct ctl *ctl)
 __CPROVER_requires(XV_CTL_Z_LO)
 __CPROVER_requires(XV_CTL_Z_HI)
-__CPROVER_requires(CTL_MEM(ctl) && CTL_INV(ctl) && CTL_SESSION(client, ctl) && CTL_GHOST_RANGE && CTL_FOREIGN(ctl))
+__CPROVER_requires(CTL_MEM(ctl) && CTL_INV(ctl) && CTL_SESSION(client, ctl) && CTL_FOREIGN(ctl))
 __CPROVER_assigns(CTL_EP_GHOSTS, CS_GHOSTS, CR_GHOSTS, client->is_response_pending, __CPROVER_object_upto(&client->pending_response, XV_CTL_SIZEOF(client->pending_response)))
 __CPROVER_ensures((__CPROVER_return_value == 0 || __CPROVER_return_value == -1) && CTL_INV(ctl) && CTL_FOREIGN(ctl))
 /* PO[C14] process_client.one_step_per_session */
@@ -219,7 +213,7 @@ __CPROVER_ensures(__CPROVER_old(client->is_response_pending) \
 static void accept_client(struct ctl *ctl)
 __CPROVER_requires(XV_CTL_Z_LO)
 __CPROVER_requires(XV_CTL_Z_HI)
-__CPROVER_requires(CTL_MEM(ctl) && CTL_INV(ctl) && CTL_GHOST_RANGE && CTL_FOREIGN(ctl) && ctl->num_clients < MAX_CLIENTS)
+__CPROVER_requires(CTL_MEM(ctl) && CTL_INV(ctl) && CTL_FOREIGN(ctl) && ctl->num_clients < MAX_CLIENTS)
 __CPROVER_assigns(CTL_EP_GHOSTS, AC_GHOSTS, ctl->num_clients)
 __CPROVER_assigns(CTL_C(ctl, ctl->num_clients).fd, CTL_C(ctl, ctl->num_clients).fd_reg_id, CTL_C(ctl, ctl->num_clients).is_response_pending)
 __CPROVER_ensures(CTL_INV(ctl) && CTL_FOREIGN(ctl) && CTL_INC(xv_ctl_readable_calls))
@@ -237,7 +231,7 @@ __CPROVER_ensures((xv_ctl_readable && xv_ctl_accept_rc >= 0) \
 static void remove_client(struct ctl *ctl, int client_idx)
 __CPROVER_requires(XV_CTL_Z_LO)
 __CPROVER_requires(XV_CTL_Z_HI)
-__CPROVER_requires(CTL_MEM(ctl) && CTL_INV(ctl) && CTL_GHOST_RANGE && CTL_FOREIGN(ctl) && client_idx >= 0 && client_idx < ctl->num_clients)
+__CPROVER_requires(CTL_MEM(ctl) && CTL_INV(ctl) && CTL_FOREIGN(ctl) && client_idx >= 0 && client_idx < ctl->num_clients)
 __CPROVER_assigns(CTL_EP_GHOSTS, RC_GHOSTS, ctl->num_clients, __CPROVER_object_upto(&CTL_C(ctl, 0), XV_CTL_SIZEOF(struct client)))
 __CPROVER_ensures(CTL_INV(ctl) && CTL_FOREIGN(ctl) && CTL_HDR_SAME(ctl))
 /* PO[C14] remove_client.session_closed */
@@ -258,7 +252,7 @@ __CPROVER_ensures(ctl->num_clients == 1 ==> (CTL_C(ctl, 0).fd == __CPROVER_old(R
 void ctl_process(struct ctl *ctl)
 __CPROVER_requires(XV_CTL_Z_LO)
 __CPROVER_requires(XV_CTL_Z_HI)
-__CPROVER_requires(CTL_MEM(ctl) && CTL_INV(ctl) && CTL_GHOST_RANGE && CTL_FOREIGN(ctl))
+__CPROVER_requires(CTL_MEM(ctl) && CTL_INV(ctl) && CTL_FOREIGN(ctl))
 __CPROVER_assigns(CTL_EP_GHOSTS, CS_GHOSTS, CR_GHOSTS, AC_GHOSTS, RC_GHOSTS, \
                   ctl->num_clients, __CPROVER_object_upto(&ctl->clients, XV_CTL_SIZEOF(ctl->clients)))
 /* PO[C14] ctl_process.table_invariant */
